@@ -48,6 +48,8 @@ type Op struct {
 
 type Case struct {
 	Ops []Op `json:"ops"`
+	// Verbosity is the log verbosity the hosting process runs with (-v; output discarded).
+	Verbosity int `json:"verbosity,omitempty"`
 }
 
 type Stats struct {
@@ -165,6 +167,10 @@ func marker(seq uint32) string { return fmt.Sprintf("Sequence No.: %d,", seq) }
 func runCase(c Case, st *Stats) *ev.Failure {
 	if st == nil {
 		st = &Stats{}
+	}
+	if c.Verbosity > 0 {
+		glue.SetKlogVerbosity(c.Verbosity)
+		defer glue.SetKlogVerbosity(0)
 	}
 	mutex.Lock()
 	flowRecords = nil
@@ -438,6 +444,7 @@ func clip(s string) string {
 
 func genCase(t *rapid.T) Case {
 	var c Case
+	c.Verbosity = rapid.SampledFrom([]int{0, 0, 0, 2, 4, 10}).Draw(t, "verbosity")
 	n := rapid.IntRange(2, 25).Draw(t, "n")
 	for i := 0; i < n; i++ {
 		switch k := rapid.IntRange(0, 19).Draw(t, "op"); {
@@ -511,6 +518,9 @@ func runRecorded(phase string, c Case) *ev.Failure {
 	}
 	if st.Concurrent {
 		cl = append(cl, "query_during_arrival")
+	}
+	if c.Verbosity > 0 {
+		cl = append(cl, "verbose_logging")
 	}
 	rec.Case(ev.Hash(c), st.CapCrossings > 0 || st.Queries > 0, cl...)
 	if len(c.Ops) <= 4 {
